@@ -99,7 +99,8 @@ def run(ctx):
            "rule": "grid of (server msize, server dialect, client msize, version string) cases; each distinct by construction; every later "
                    "reply frame and every announced frame size is one validated line",
            "frames_checked": int(rep.get("stats", {}).get("frames", 0) or 0), "lines_validated": lines, "mismatches": mism,
-           "grid_cases": len(cases), "connect_cases": len(ccases), "model_fixclip": fixclip}
+           "grid_cases": len(cases), "connect_cases": len(ccases), "model_fixclip": fixclip,
+           "reads_held_across_a_second_tversion": int(rep.get("stats", {}).get("held_across_version", 0) or 0)}
     return ctx.finish("model_checking", cov, assumptions=[
         "sizes >= 2^31 are represented as 2^31-1 in the TLA+ trace (the server msize is always below)",
         "the scripted implementation never offers more data than a Tread asked for (the Unix file server is covered by C14)",
